@@ -581,6 +581,10 @@ func runCorr(c *hx.Ctx, n int) {
 				q.Data = nil
 				q.I = []int64{0, 1, 5, -1, 1023, 1024, 1025, 1 << 40}[r.Intn(8)]
 			}
+			if op == "XSubstr" && r.Intn(3) == 0 && len(d) > 0 { // start + count wraps around int64
+				q.I = int64(1 + r.Intn(len(d)))
+				q.J = (1<<63 - 1) - int64(r.Intn(int(q.I)+1))
+			}
 			if (op == "XSetArray" || op == "XSetStruct") && (q.J > 1<<40 || q.J < -1<<40) {
 				q.J = 5
 			}
